@@ -26,6 +26,8 @@ enum Call {
   Deg(usize, u8),
   Op2(&'static str, usize, usize),
   OpN(&'static str, Vec<usize>),
+  /// multi-result call (split / split_indirect): checked on the spot, its results are dropped at once
+  Split(usize, bool),
 }
 impl Call {
   fn creates(&self) -> bool {
@@ -42,6 +44,9 @@ impl Call {
       Call::Deg(h, d) => format!("DEG #{} {}", h, d),
       Call::Op2(o, a, b) => format!("OP2 {} #{} #{}", o, a, b),
       Call::OpN(o, v) => format!("OPN {} {} {}", o, v.len(), v.iter().map(|h| format!("#{}", h)).collect::<Vec<_>>().join(" ")),
+      // for the reference registry a batch of transient results is a read of the operand
+      // (Store.transient_result_neutral): the expected answer carries the operand's value
+      Call::Split(h, _) => format!("READ #{}", h),
     }
   }
 }
@@ -84,7 +89,7 @@ fn exec_real(c: &Call, real: &[Option<usize>]) -> Result<Result<String, String>,
       Call::AddSt(s) => st.insert_stmoc(to_moc2(s)).map(|i| format!("K{}", i)),
       Call::Copy(h) => st.copy(idx(*h)).map(|_| "OK".to_string()),
       Call::Drop(h) => st.drop(idx(*h)).map(|_| "OK".to_string()),
-      Call::Read(h) => read_value(idx(*h)),
+      Call::Read(h) | Call::Split(h, _) => read_value(idx(*h)),
       Call::Not(h) => st.not(idx(*h)).map(|i| format!("K{}", i)),
       Call::Deg(h, d) => st.degrade(idx(*h), *d).map(|i| format!("K{}", i)),
       Call::Op2(o, a, b) => match *o {
@@ -125,7 +130,7 @@ fn gen_history(rng: &mut Rng, len: usize) -> Vec<Call> {
         Call::Add(gen_related(rng, &base[match q { Q::S => 0, Q::T => 1, Q::F => 2 }], d, 4))
       }
     } else {
-      match rng.below(14) {
+      match rng.below(15) {
         0 | 1 => Call::Copy(pick(rng, ncreated)),
         2 | 3 | 4 => Call::Drop(pick(rng, ncreated)),
         5 | 6 => Call::Read(pick(rng, ncreated)),
@@ -137,6 +142,7 @@ fn gen_history(rng: &mut Rng, len: usize) -> Vec<Call> {
           let k = rng.range(0, 6) as usize;
           Call::OpN(*rng.pick(&["and", "or", "xor"]), (0..k).map(|_| pick(rng, ncreated)).collect())
         }
+        13 => Call::Split(pick(rng, ncreated), rng.chance(1, 2)),
         _ => Call::Read(ncreated + 5), // a handle that was never handed out
       }
     };
@@ -156,6 +162,95 @@ fn gen_history(rng: &mut Rng, len: usize) -> Vec<Call> {
   h
 }
 
+
+/// multi-result call: `split` / `split_indirect` of the S-MOC behind creation index `hh`.
+/// `e` is the reference registry's answer to a read of that handle.  Checked: success exactly when
+/// the handle denotes an S-MOC; the returned indices are pairwise distinct and none was live
+/// (Store.batch_results_distinct, C13_no_reissue_of_live_handle); each denotes the corresponding
+/// component computed by the library on the operand's value; the operand still reads the same;
+/// dropping every result succeeds once, and once only.  The results are dropped, so the rest of
+/// the history runs on an unchanged registry (Store.transient_result_neutral).
+fn check_split(hh: usize, indirect: bool, e: &str, real: &[Option<usize>], live_real: &HashMap<usize, i64>) -> Result<(), (String, String)> {
+  use moc::moc::range::RangeMOC;
+  use moc::moc::{CellMOCIntoIterator, CellMOCIterator, RangeMOCIterator};
+  let st = store();
+  let ridx = real.get(hh).copied().flatten().unwrap_or(1_000_000 + hh);
+  let name = if indirect { "split_indirect" } else { "split" };
+  let got = catch(|| if indirect { st.split_indirect(ridx) } else { st.split(ridx) }).map_err(|p| (format!("{} panics", name), p))?;
+  let t: Vec<&str> = e.split_whitespace().collect();
+  let is_smoc = t.len() >= 4 && t[0] == "V" && t[1] == "s";
+  let ids = match (got, is_smoc) {
+    (Err(_), false) => return Ok(()),
+    (Err(m), true) => return Err((format!("{} fails on a live S-MOC", name), m)),
+    (Ok(ids), false) => {
+      for i in &ids {
+        let _ = st.drop(*i);
+      }
+      return Err((format!("{} succeeds on a handle that does not denote an S-MOC", name), format!("{:?}", ids)));
+    }
+    (Ok(ids), true) => ids,
+  };
+  let cleanup = |ids: &[usize]| {
+    let mut seen = HashSet::new();
+    for i in ids {
+      if seen.insert(*i) && !live_real.contains_key(i) {
+        let _ = st.drop(*i);
+      }
+    }
+  };
+  let mut seen = HashSet::new();
+  for i in &ids {
+    if !seen.insert(*i) {
+      cleanup(&ids);
+      return Err((format!("{} returns the same index twice", name), format!("{:?}", ids)));
+    }
+    if live_real.contains_key(i) {
+      cleanup(&ids);
+      return Err((format!("{} hands out an index that is still live", name), format!("{:?} (live: {:?})", ids, live_real.keys().collect::<Vec<_>>())));
+    }
+  }
+  // expected components: the library function on the operand's value
+  let d: u8 = t[2].parse().unwrap_or(0);
+  let n: usize = t[3].parse().unwrap_or(0);
+  let r: Vec<(u64, u64)> = (0..n).map(|k| (t[4 + 2 * k].parse().unwrap(), t[5 + 2 * k].parse().unwrap())).collect();
+  let m: RangeMOC<u64, Hpx<u64>> = rm::<Hpx<u64>>(d, &r);
+  let comps: Vec<Vec<(u64, u64)>> = m.split_into_joint_mocs(indirect).into_iter().map(|c| c.into_cell_moc_iter().ranges().map(|x| (x.start, x.end)).collect()).collect();
+  if comps.len() != ids.len() {
+    cleanup(&ids);
+    return Err((format!("{} returns {} indices for {} components", name, ids.len(), comps.len()), format!("{:?}", ids)));
+  }
+  for (k, i) in ids.iter().enumerate() {
+    let v: Result<Vec<(u64, u64)>, String> = st.to_ranges(*i).map(|v| v.iter().map(|x| (x.start, x.end)).collect());
+    if v.as_ref().ok() != Some(&comps[k]) {
+      cleanup(&ids);
+      return Err((format!("result #{} of {} does not denote component #{} of the operand", k, name, k), format!("index {} reads {:?}, expected {:?}", i, v, comps[k])));
+    }
+  }
+  match read_value(ridx) {
+    Ok(v) if v == e => {}
+    other => {
+      cleanup(&ids);
+      return Err((format!("the operand of {} no longer reads the same", name), format!("{:?}", other)));
+    }
+  }
+  // dropped in REVERSE order of creation: the slab's LIFO free list is then exactly as before the
+  // call (slots appended at the end are re-used in the same order as fresh slots would be), so the
+  // reference registry - for which the call was a read - keeps allocating the same slots, which
+  // matters for the calls of the history that use a dangling (dropped, possibly re-used) handle
+  for i in ids.iter().rev() {
+    if let Err(m) = st.drop(*i) {
+      return Err((format!("dropping a result of {} fails", name), m));
+    }
+  }
+  if let Some(i) = ids.first() {
+    // (the first result is at the top of the free list: a second drop must be refused)
+    if st.drop(*i).is_ok() && !live_real.contains_key(i) {
+      return Err((format!("a result of {} can be dropped twice", name), format!("{}", i)));
+    }
+  }
+  Ok(())
+}
+
 fn sequential_history(rep: &mut Report, orc: &mut Oracle, rng: &mut Rng, len: usize) {
   let h = gen_history(rng, len);
   let line = format!("HIST {} {}", h.len(), h.iter().map(|c| c.wire()).collect::<Vec<_>>().join(" "));
@@ -170,8 +265,17 @@ fn sequential_history(rep: &mut Report, orc: &mut Oracle, rng: &mut Rng, len: us
   let mut ok = true;
   for (i, c) in h.iter().enumerate() {
     rep.evaluations += 1;
-    let got = exec_real(c, &real);
     let e = &exp[i];
+    if let Call::Split(hh, indirect) = c {
+      rep.count("multi-result-call");
+      if let Err((what, obs)) = check_split(*hh, *indirect, e, &real, &live_real) {
+        ok = false;
+        rep.violation(&format!("store call #{} ({} #{}) {}", i, if *indirect { "split_indirect" } else { "split" }, hh, what), &format!("{} # first differing call index {} (multi-result call on #{})", line, i, hh), &obs, e, "C13_sequential_refinement + C13_no_reissue_of_live_handle (batch of transient results)");
+        break;
+      }
+      continue;
+    }
+    let got = exec_real(c, &real);
     let mut mismatch = |what: &str, g: String, rep: &mut Report| {
       rep.violation(&format!("store call #{} ({}) {}", i, c.wire().chars().take(60).collect::<String>(), what), &format!("{} # first differing call index {}", line, i), &g, e, "C13_sequential_refinement");
     };
